@@ -7,7 +7,7 @@ from .. import workload
 
 TINY = {"n_chr": 2, "genes_per_chr": 2, "reads_per_iso": 2, "paralogs": 0, "novel": 0, "unmapped": 0, "supplementary": 0,
         "lowmapq": 0, "intergenic": 0, "mono": 0}
-POLICIES = ["pct", "pct", "starve", "starve", "starve", "random", "rr", "serial"]
+POLICIES = ["pct", "starve", "starve", "yield", "yield", "yield", "random", "rr"]
 
 
 def gen_session(rng, quick):
@@ -102,7 +102,7 @@ def run(chk, orch):
     rounds = 0
     while True:
         rounds += 1
-        n = 48 if quick else 160
+        n = 96 if quick else 192
         sessions = {}
         gold_keys = {}
         for k in range(n):
